@@ -26,6 +26,7 @@ func init() {
 			{ID: "R06c", Floor: 2, Doc: "rescan completeness: probe of the last byte (or equivalent) dominates indexing; all scanned sections indexed; writer positioned from the section offsets", Run: ruleR06c},
 			{ID: "R06d", Floor: 3, Doc: "validate-before-mutate in Resume", Run: ruleR12a},
 			{ID: "R06e", Floor: 1, Doc: "Header.ReadFrom: field stores only after the three range checks", Run: ruleR09e},
+			{ID: "R06f", Floor: 1, Doc: "every section already in the file is re-indexed on resume (= R12c): acknowledged blocks stay retrievable", Run: ruleR12c},
 		},
 	})
 	register(PropertyDef{
@@ -42,6 +43,8 @@ func init() {
 			{ID: "R12b", Floor: 1, Doc: "ResumableVersion accepts exactly (1,v1) and (2,v2)", Run: ruleR12b},
 			{ID: "R12c", Floor: 1, Doc: "every scanned section is indexed during rescan", Run: ruleR12c},
 			{ID: "R12d", Floor: 1, Doc: "Matches compares whole CIDs", Run: ruleR12d},
+			{ID: "R12e", Floor: 2, Doc: "both callers of Resume pass WriteAsCarV1 / MaxAllowedHeaderSize / ZeroLengthSectionAsEOF / DataOffset to the parameters that play those roles", Run: ruleR12e},
+			{ID: "R12f", Floor: 2, Doc: "rescan bound and writer re-positioning (= R06c): the writer resumes at the end of the last indexed section, also when there is none yet", Run: ruleR06c},
 		},
 	})
 	register(PropertyDef{
@@ -56,6 +59,8 @@ func init() {
 			{ID: "R16a", Floor: 25, Doc: "error discipline on the write path: no dropped error; non-nil outcome reaches only error-carrying returns", Run: ruleR16a},
 			{ID: "R16b", Floor: 2, Doc: "index only after success (= R06a)", Run: ruleR06a},
 			{ID: "R16c", Floor: 2, Doc: "rollback or poison after a failed section write", Run: ruleR16c},
+			{ID: "R16e", Floor: 8, Doc: "framing writer: every part written by its own checked Write, in order (= R01b)", Run: ruleR01b},
+			{ID: "R16f", Floor: 1, Doc: "the deferred writer remembers its CAR writer only when constructing it (header write included) succeeded", Run: ruleR16f},
 			{ID: "R16d", Floor: 2, Doc: "position bookkeeping adds exactly the reported byte count", Run: ruleR16d},
 		},
 	})
@@ -436,6 +441,25 @@ func ruleR12a(c *Ctx, r *Report) {
 		for _, e := range mismatch {
 			if reachFromEdge(fn, e, nil)[m.in.Block()] {
 				bad = fmt.Sprintf("%s at %s is reachable from the padding-mismatch outcome", m.what, c.Pos(m.in.Pos()))
+			}
+		}
+		if bad == "" && m.what == "Truncate" {
+			// the only legitimate truncation removes the index of a finalized file: at DataOffset + DataSize of the header on file
+			ci := m.in.(*ssa.Call)
+			arg := ci.Call.Args[len(ci.Call.Args)-1]
+			sawOff, sawSize := false, false
+			for _, o := range origins(arg, originOpts{binops: true}) {
+				switch {
+				case o.Kind == "field" && o.Field != nil && o.Field.Name() == "DataOffset":
+					sawOff = true
+				case o.Kind == "field" && o.Field != nil && o.Field.Name() == "DataSize":
+					sawSize = true
+				default:
+					bad = "the file is truncated at a position that is not DataOffset + DataSize of the header found on file (a payload-relative or scan-derived position used as an absolute file offset cuts into acknowledged sections)"
+				}
+			}
+			if bad == "" && (!sawOff || !sawSize) {
+				bad = "the truncation point is not DataOffset + DataSize of the header found on file"
 			}
 		}
 		if bad == "" && m.what == "header reset write" {
@@ -906,5 +930,119 @@ func ruleR16c(c *Ctx, r *Report) {
 		}
 		r.Check(recovered, key, c.Pos(lw[0].Pos()), "failure path restores the writer position or poisons the store",
 			"after a failed/short section write the function returns with the writer position advanced by the partial write and the store still usable: later puts append after garbage and Finalize produces an archive that does not scan")
+	}
+}
+
+func ruleR16f(c *Ctx, r *Report) {
+	fn, err := c.Func(pkgDeferred, "DeferredCarWriter", "writer")
+	if err != nil {
+		r.InfraFail("%v", err)
+		return
+	}
+	key := "writer-kept-only-on-success@" + fnKey(fn)
+	nw := callsToFunc(fn, pkgStorage, "", "NewWritable")
+	bad := ""
+	if len(nw) != 1 {
+		bad = "expected one NewWritable call"
+	} else {
+		ok := condEdges(fn, errNilCond(errOfCall(nw[0]), true))
+		n := 0
+		eachInstr(fn, func(in ssa.Instruction) {
+			st, isSt := in.(*ssa.Store)
+			if !isSt {
+				return
+			}
+			fa, isFa := st.Addr.(*ssa.FieldAddr)
+			if !isFa || !fieldAddrIs(fa, pkgDeferred, "DeferredCarWriter", "w") {
+				return
+			}
+			n++
+			if len(ok) == 0 || reach(fn, nw[0].Block(), edgeSet(ok))[st.Block()] {
+				bad = "dcw.w is assigned before the error of NewWritable is known to be nil: after a failed header write the writer is kept, the next Put skips the header and appends sections to a headerless stream while reporting success"
+			}
+		})
+		if n == 0 {
+			bad = "dcw.w is never assigned"
+		}
+	}
+	r.Check(bad == "", key, c.Pos(fn.Pos()), "dcw.w = w only behind err == nil of NewWritable", bad)
+}
+
+// ruleR12e: roles of Resume's scalar parameters, derived from how Resume uses them,
+// against what the two callers pass (bool/bool and uint64/uint64 swaps compile).
+func ruleR12e(c *Ctx, r *Report) {
+	fn, err := c.Func(pkgStore, "", "Resume")
+	if err != nil {
+		r.InfraFail("%v", err)
+		return
+	}
+	role := map[int]string{}
+	// header limit: the parameter handed to carv1.ReadHeader
+	for _, ci := range callsToFunc(fn, pkgV1, "", "ReadHeader") {
+		for i, p := range fn.Params {
+			if canon(ci.Common().Args[1]) == ssa.Value(p) {
+				role[i] = "MaxAllowedHeaderSize"
+			}
+		}
+	}
+	// data offset: the uint64 parameter compared with Header.DataOffset
+	for i, p := range fn.Params {
+		pp := p
+		if len(cmpEdges(fn, func(v ssa.Value) bool { return loadsField(canon(v), modV2, "Header", "DataOffset") }, func(v ssa.Value) bool { return canon(v) == ssa.Value(pp) }, "ne")) > 0 {
+			role[i] = "DataOffset"
+		}
+	}
+	// zero-length flag: the bool parameter tested right after `length == 0`
+	lens := callsToFunc(fn, pkgVarint, "", "ReadUvarint")
+	if len(lens) == 1 {
+		L := extractOf(lens[0].Value(), 0)
+		zero := cmpEdges(fn, func(v ssa.Value) bool { return canon(v) == L }, func(v ssa.Value) bool { k, ok := constInt(v); return ok && k == 0 }, "eq")
+		for i, p := range fn.Params {
+			if bt, ok := p.Type().Underlying().(*types.Basic); !ok || bt.Kind() != types.Bool {
+				continue
+			}
+			for _, e := range boolParamEdges(fn, p, true) {
+				for _, z := range zero {
+					if z.From.Succs[z.Succ] == e.From {
+						role[i] = "ZeroLengthSectionAsEOF"
+					}
+				}
+			}
+		}
+	}
+	// v1: the remaining bool parameter
+	for i, p := range fn.Params {
+		if bt, ok := p.Type().Underlying().(*types.Basic); ok && bt.Kind() == types.Bool && role[i] == "" {
+			role[i] = "WriteAsCarV1"
+		}
+	}
+	want := map[string]bool{"MaxAllowedHeaderSize": false, "DataOffset": false, "ZeroLengthSectionAsEOF": false, "WriteAsCarV1": false}
+	for _, v := range role {
+		want[v] = true
+	}
+	for k, ok := range want {
+		if !ok {
+			r.Undec("resume-roles@"+fnKey(fn), c.Pos(fn.Pos()), "could not identify the parameter playing the role "+k)
+			return
+		}
+	}
+	for _, g := range c.RepoFuncs() {
+		for _, ci := range callsToFunc(g, pkgStore, "", "Resume") {
+			key := "resume-args@" + fnKey(g)
+			bad := ""
+			for i, rl := range role {
+				a := canon(ci.Common().Args[i])
+				var ok bool
+				if rl == "DataOffset" {
+					ok = loadsField(a, modV2, "Header", "DataOffset")
+				} else {
+					ok = loadsField(a, modV2, "Options", rl)
+				}
+				if !ok {
+					bad = fmt.Sprintf("argument %d of store.Resume plays the role of %s inside Resume but the caller passes something else (same-typed arguments swapped?)", i+1, rl)
+				}
+			}
+			r.Check(bad == "", key, c.Pos(ci.Pos()), "DataOffset, WriteAsCarV1, MaxAllowedHeaderSize, ZeroLengthSectionAsEOF reach the parameters with those roles", bad)
+		}
 	}
 }
